@@ -20,7 +20,10 @@ const (
 	hNU = 8
 )
 
-type hP struct{ P *int64 }
+// hP: the pointer sits inside an array field (reflect.Array kind), at a non-zero offset
+type hP struct{ P [2]*int64 }
+
+func hMkP(p *int64) *hP { return &hP{P: [2]*int64{nil, p}} }
 type hS struct{ S string }
 
 const hMaxH = 10
@@ -343,7 +346,7 @@ func (x *hW) checkEntity(i int) {
 		case uR1:
 			vAssert((*hR1)(ptr).V == x.r1[i], "component R1 holds the last written value")
 		case uP:
-			vAssert((*hP)(ptr).P == x.p[i], "component P holds the last written pointer")
+			vAssert((*hP)(ptr).P[1] == x.p[i] && (*hP)(ptr).P[0] == nil, "component P holds the last written pointer")
 		case uS:
 			vAssert((*hS)(ptr).S == x.s[i], "component S holds the last written string")
 		}
